@@ -195,34 +195,29 @@ def mkGraph (f : Function) : Except Err Graph := do
       | none => false
     postorders := postorder f f.entry :: f.subs.map fun s => postorder f s.entry }
 
-def zip3With (f : α → β → γ → δ) : List α → List β → List γ → List δ
-  | a :: as, b :: bs, c :: cs => f a b c :: zip3With f as bs cs
-  | _, _, _ => []
-
-/-- RCHout(b) for the vector of keys: `_merge_information_forward` / `_calculate_reachin` -/
-def fwdF (A : Analysis D) (g : Graph) (keys : List Key) (blockCtx : Nat → List D)
-    (pathCtx : Nat → Nat → List D) (cur : List (Nat × List D)) (b : Nat) : List D :=
-  let nulls := keys.map fun _ => A.dom.null
-  let rout (k : Nat) : List D := getMap cur k nulls
-  let init : List D := keys.map fun key => if b == g.entry then A.univ key.base else A.dom.null
-  let r0 := (g.prevG b).foldl (fun acc p =>
-    zip3With (fun a r pc => A.dom.union a (A.dom.inter r pc)) acc (rout p) (pathCtx b p)) init
+/-- RCHout(b) for one key: `_merge_information_forward` / `_calculate_reachin`.
+    The Python solves all keys of an analysis in one worklist; the keys never interact, so the model solves
+    them one at a time (that the schedule is immaterial is what C14_confluence is about, and the
+    correspondence check compares the results). -/
+def fwdF (A : Analysis D) (g : Graph) (univ : D) (blockCtx : Nat → D)
+    (pathCtx : Nat → Nat → D) (cur : List (Nat × D)) (b : Nat) : D :=
+  let rout (k : Nat) : D := getMap cur k A.dom.null
+  let init : D := if b == g.entry then univ else A.dom.null
+  let r0 := (g.prevG b).foldl (fun acc p => A.dom.union acc (A.dom.inter (rout p) (pathCtx b p))) init
   let r1 := match g.callsubOf b with
-    | some c => List.zipWith A.dom.inter r0 (rout c)
+    | some c => A.dom.inter r0 (rout c)
     | none => r0
-  List.zipWith A.dom.inter r1 (blockCtx b)
+  A.dom.inter r1 (blockCtx b)
 
-/-- LIVEout(b): `_merge_information_backward` / `_calculate_livein` -/
-def bwdF (A : Analysis D) (g : Graph) (keys : List Key) (blockCtx : Nat → List D)
-    (cur : List (Nat × List D)) (b : Nat) : List D :=
-  let nulls := keys.map fun _ => A.dom.null
-  let lout (k : Nat) : List D := getMap cur k nulls
+/-- LIVEout(b) for one key: `_merge_information_backward` / `_calculate_livein` -/
+def bwdF (A : Analysis D) (g : Graph) (blockCtx : Nat → D) (cur : List (Nat × D)) (b : Nat) : D :=
+  let lout (k : Nat) : D := getMap cur k A.dom.null
   if g.isLeaf b then lout b else
-  let l0 := (g.nextG b).foldl (fun acc n => List.zipWith A.dom.union acc (lout n)) nulls
+  let l0 := (g.nextG b).foldl (fun acc n => A.dom.union acc (lout n)) A.dom.null
   let l1 := match g.retPointOf b with
-    | some r => if g.calleeHasRetsub b then List.zipWith A.dom.inter l0 (lout r) else l0
+    | some r => if g.calleeHasRetsub b then A.dom.inter l0 (lout r) else l0
     | none => l0
-  List.zipWith A.dom.inter l1 (blockCtx b)
+  A.dom.inter l1 (blockCtx b)
 
 def fwdDeps (g : Graph) (b : Nat) : List Nat :=
   g.nextG b ++ (match g.retPointOf b with | some r => [r] | none => [])
@@ -230,31 +225,35 @@ def fwdDeps (g : Graph) (b : Nat) : List Nat :=
 def bwdDeps (g : Graph) (b : Nat) : List Nat :=
   g.prevG b ++ (match g.callsubOf b with | some c => [c] | none => [])
 
-def solverFuel (g : Graph) (nkeys : Nat) : Nat := (g.keys.length + 2) * (g.keys.length + 2) * (nkeys + 2) * 40 + 1000
+def solverFuel (g : Graph) : Nat := (g.keys.length + 2) * (g.keys.length + 2) * 64 + 1000
 
-/-- forward_analyis followed by backward_analysis for a list of keys -/
-def solve (A : Analysis D) (g : Graph) (keys : List Key) (blockCtx : Nat → List D)
-    (pathCtx : Nat → Nat → List D) : Except Err (List (Nat × List D)) := do
-  let nulls := keys.map fun _ => A.dom.null
-  let fuel := solverFuel g keys.length
-  let wlF := g.postorders.flatMap List.reverse
-  let init : List (Nat × List D) := g.keys.map fun k => (k, nulls)
-  let rout ← match worklistRun (fwdF A g keys blockCtx pathCtx) (fwdDeps g) nulls fuel init wlF with
+def fwdWorklist (g : Graph) : List Nat := g.postorders.flatMap List.reverse
+def bwdWorklist (g : Graph) : List Nat := g.postorders.flatMap fun l => l.filter fun b => !g.isLeaf b
+
+/-- forward_analyis for one key -/
+def solveFwd (A : Analysis D) (g : Graph) (univ : D) (blockCtx : Nat → D) (pathCtx : Nat → Nat → D) :
+    Option (List (Nat × D)) :=
+  worklistRun (fwdF A g univ blockCtx pathCtx) (fwdDeps g) A.dom.null (solverFuel g)
+    (g.keys.map fun k => (k, A.dom.null)) (fwdWorklist g)
+
+/-- backward_analysis for one key, on the forward solution `ctx1` -/
+def solveBwd (A : Analysis D) (g : Graph) (ctx1 : Nat → D) : Option (List (Nat × D)) :=
+  worklistRun (bwdF A g ctx1) (bwdDeps g) A.dom.null (solverFuel g)
+    (g.keys.map fun k => (k, if g.isLeaf k then ctx1 k else A.dom.null)) (bwdWorklist g)
+
+/-- forward_analyis followed by backward_analysis for one key -/
+def solve (A : Analysis D) (g : Graph) (univ : D) (blockCtx : Nat → D)
+    (pathCtx : Nat → Nat → D) : Except Err (List (Nat × D)) := do
+  let rout ← match solveFwd A g univ blockCtx pathCtx with
     | some r => pure r
     | none => throw "Timeout"
-  let ctx1 (k : Nat) : List D := getMap rout k nulls
-  let wlB := g.postorders.flatMap fun l => l.filter fun b => !g.isLeaf b
-  let initB : List (Nat × List D) := g.keys.map fun k => (k, if g.isLeaf k then ctx1 k else nulls)
-  match worklistRun (bwdF A g keys ctx1) (bwdDeps g) nulls fuel initB wlB with
+  match solveBwd A g (fun k => getMap rout k A.dom.null) with
   | some r => pure r
   | none => throw "Timeout"
 
 structure AnalysisResult (D : Type) where
-  keys : List Key
-  blockC : List (Nat × List D)      -- step-1 block constraints (all keys)
-  base : List (Nat × List D)        -- solution for the base keys
-  gtxC : List (Nat × List D)        -- gtx block constraints after _update_gtxn_constraints
-  gtx : List (Nat × List D)         -- solution for the gtx keys
+  blockC : List (Key × List (Nat × D))     -- step-1 block constraints per key (gtx keys: after _update_gtxn_constraints)
+  vals : List (Key × List (Nat × D))       -- final solution per key
 
 /-- run_analysis.  `groupIndices b` = `function.transaction_context(b).group_indices` (stored by GroupIndices) -/
 def runAnalysis (A : Analysis D) (f : Function) (groupIndices : Nat → List Nat) :
@@ -283,29 +282,26 @@ def runAnalysis (A : Analysis D) (f : Function) (groupIndices : Nat → List Nat
     if (match b.exitOp with | some (.bz _) | some (.bnz _) => true | _ => false) && b.next.isEmpty then
       throw "IndexError"
   let blk (k : Nat) : FBlock := (f.block? k).getD default
-  let bc (keys : List Key) : List (Nat × List D) :=
-    f.blocks.map fun b => (b.key, keys.map (blockConstraint A f.intcs b))
-  let pc (keys : List Key) (succ pred : Nat) : List D :=
-    keys.map (pathConstraint A f.intcs (blk pred) succ)
-  let bcBase := bc bkeys
-  let nullsB := bkeys.map fun _ => A.dom.null
-  let base ← solve A g bkeys (fun k => getMap bcBase k nullsB) (pc bkeys)
-  if gkeys.isEmpty then
-    pure { keys := allKeys, blockC := bcBase, base, gtxC := [], gtx := [] }
-  else
-    let bcG := bc gkeys
-    let nullsG := gkeys.map fun _ => A.dom.null
+  let bc (key : Key) : List (Nat × D) := f.blocks.map fun b => (b.key, blockConstraint A f.intcs b key)
+  let pc (key : Key) (succ pred : Nat) : D := pathConstraint A f.intcs (blk pred) succ key
+  let baseRes ← bkeys.mapM fun key => do
+    let c := bc key
+    let r ← solve A g (A.univ key.base) (fun k => getMap c k A.dom.null) (pc key)
+    pure (key, c, r)
+  let baseVal (k : Nat) (baseName : String) : D :=
+    match baseRes.find? fun (key, _, _) => key.base == baseName with
+    | some (_, _, r) => getMap r k A.dom.null
+    | none => A.dom.null
+  let gtxRes ← gkeys.mapM fun key => do
+    let c0 := bc key
     -- _update_gtxn_constraints
-    let baseVal (k : Nat) (baseName : String) : D :=
-      match (bkeys.zip (getMap base k nullsB)).find? fun (key, _) => key.base == baseName with
-      | some (_, v) => v
-      | none => A.dom.null
-    let gtxC := bcG.map fun (k, vs) =>
-      (k, List.zipWith (fun key v =>
-        match key.kind with
-        | .atIndex i => if (groupIndices k).contains i then A.dom.inter v (baseVal k key.base) else A.dom.null
-        | _ => v) gkeys vs)
-    let gtx ← solve A g gkeys (fun k => getMap gtxC k nullsG) (pc gkeys)
-    pure { keys := allKeys, blockC := bcBase.map (fun (k, vs) => (k, vs ++ getMap bcG k nullsG)), base, gtxC, gtx }
+    let c := match key.kind with
+      | .atIndex i => c0.map fun (k, v) =>
+          (k, if (groupIndices k).contains i then A.dom.inter v (baseVal k key.base) else A.dom.null)
+      | _ => c0
+    let r ← solve A g (A.univ key.base) (fun k => getMap c k A.dom.null) (pc key)
+    pure (key, c, r)
+  let all := baseRes ++ gtxRes
+  pure { blockC := all.map fun (k, c, _) => (k, c), vals := all.map fun (k, _, r) => (k, r) }
 
 end Tealer
